@@ -30,7 +30,7 @@ import (
 
 const (
 	c02ChildEnv      = "VERIF_C02_CHILD"
-	c02AddrSpaceCap  = 4 << 30   // RLIMIT_AS of the worker
+	c02AddrSpaceCap  = 4 << 30  // RLIMIT_AS of the worker
 	c02StackCap      = 64 << 20 // debug.SetMaxStack in the worker
 	c02HeapWatchdog  = 1536 << 20
 	c02StatusOK      = 0
